@@ -1276,7 +1276,7 @@ Definition ended_ok (s : st) : Prop :=
 
 Definition k_ok (s : st) : Prop :=
   match kpc_ s with
-  | KIdle => rdone s = true -> nw s = 0 \/ wg s = 0
+  | KIdle => rdone s = true -> merged s = true /\ (nw s = 0 \/ wg s = 0)
   | KNextSel _ | KRet _ | KClose1 => rdone s = false /\ merged s = true
   | KNextParked _ => rdone s = false /\ merged s = true /\ sdone s = false
   | KDrain => rdone s = false /\ merged s = true /\ sdone s = true
@@ -1536,7 +1536,7 @@ Proof.
     + exfalso. pose proof (pre_defer_lt _ _ _ HG Hp Epd). lia.
   - (* k_ok *) pose proof (g_kpc _ HG) as K. unfold k_ok in *. rewrite Ek, ?En, ?Em, ?Ec, ?Ed, ?Er.
     destruct (kpc_ s); try exact K.
-    + intros R. destruct (K R) as [Z|Z]; [left; exact Z|right; apply Hwg0; exact Z].
+    + intros R. destruct (K R) as [M [Z|Z]]; (split; [exact M|]); [left; exact Z|right; apply Hwg0; exact Z].
     + destruct K as [K1 [Z|(K2 & K3 & K4)]]; (split; [exact K1|]); [left; exact Z|right; auto].
   - (* seen_ok *) destruct (g_seen _ HG) as [S1 S2]. unfold seen_ok, results, ended_ok.
     rewrite ?Ek, ?Esn, ?En, ?Ed, ?Ee, ?Erc, ?Esrcs. split; [exact S1|].
@@ -2287,11 +2287,8 @@ Proof.
   eapply (GI_local_gen s _ i p WCallNext x x); eauto; simpl; try reflexivity.
   - symmetry. apply upd_same. exact Hx.
   - rewrite Hpd. reflexivity.
-  - congruence.
   - intros _. destruct Hpv; subst p; reflexivity.
-  - discriminate.
   - destruct Hpv; subst p; intros C; discriminate.
-  - discriminate.
   - intros e [W|W]; destruct Hpv; subst p; discriminate.
   - intros j q y Hne Hq Hy. destruct (g_workers _ HG j q y Hq Hy) as [w1 w2 w3 w4 w5 w6 w7 w8 w9].
     constructor; simpl; rewrite ?from_snoc_other by congruence; assumption.
@@ -2311,6 +2308,7 @@ Proof.
     constructor; simpl in *; auto; no_win.
     + split; [discriminate|]. intros Hm'. congruence.
     + rewrite from_snoc_same, app_nil_r. destruct Hpv; subst p; simpl in w7; exact w7.
+    + rewrite w9. destruct Hpv; subst p; reflexivity.
 Qed.
 
 Lemma inv_TSendSel_chan s i s' : GI s -> step s (TSendSel i AChan) = Some s' -> GI s'.
